@@ -18,7 +18,8 @@ package rsyncwire
 //@   modifies rsyncwire.CountingWriter.BytesWritten
 //@ func (*rsyncwire.Conn).WriteInt32
 //@   modifies rsyncwire.CountingWriter.BytesWritten, ghost.int32sWritten
-//@   ensures [counted] ghost.int32sWritten == old(ghost.int32sWritten) + 1
+// (definition of the ghost counter, not a property of the body)
+//@   ensures[ghostdef] [counted] ghost.int32sWritten == old(ghost.int32sWritten) + 1
 //@ func (*rsyncwire.Conn).WriteInt64
 //@   modifies rsyncwire.CountingWriter.BytesWritten
 //@ func (*rsyncwire.Conn).WriteString
